@@ -98,6 +98,14 @@ type PropFile struct{ Prop, File, Re string }
 
 type MapOrderDirective struct{ Prop, File string }
 
+// CycleGuardDirective: implementations of Method that recurse into contained values must consult
+// the traversal memory (Guard, then Mark) before they do; Acyclic lists the implementations that
+// recurse but whose containers no script can make cyclic
+type CycleGuardDirective struct {
+	Prop, Method, Guard, Mark string
+	Acyclic                   []string
+}
+
 // CallersDirective: the functions that may call Callee directly (a call funnel)
 type CallersDirective struct {
 	Prop, Callee string
@@ -139,6 +147,7 @@ type ContractFile struct {
 	GlobalStates []GlobalStateDirective
 	FieldsClosed []FieldsClosedDirective
 	Callers      []CallersDirective
+	CycleGuards  []CycleGuardDirective
 	Resets     []ResetDirective
 	ClauseAll  []ClauseAll
 	EnsuresAll []EnsuresAll
@@ -236,6 +245,22 @@ func processContractLines(cf *ContractFile, lines []string, lnos []int) error {
 				}
 			}
 			cf.Effects = append(cf.Effects, d)
+			cur = nil
+			continue
+		case strings.HasPrefix(t, "cycleguard "):
+			// cycleguard Cxx Method | GuardFn | MarkFn | acyclic impl, impl, ...
+			parts := strings.Split(strings.TrimPrefix(t, "cycleguard "), "|")
+			hd := strings.Fields(parts[0])
+			if len(parts) != 4 || len(hd) != 2 {
+				return fmt.Errorf("line %d: cycleguard Cxx Method | GuardFn | MarkFn | acyclic implementations", no)
+			}
+			d := CycleGuardDirective{Prop: hd[0], Method: hd[1], Guard: strings.TrimSpace(parts[1]), Mark: strings.TrimSpace(parts[2])}
+			for _, f := range strings.Split(parts[3], ",") {
+				if f = strings.TrimSpace(f); f != "" {
+					d.Acyclic = append(d.Acyclic, f)
+				}
+			}
+			cf.CycleGuards = append(cf.CycleGuards, d)
 			cur = nil
 			continue
 		case strings.HasPrefix(t, "callers "):
